@@ -513,7 +513,6 @@ fn convert_intensity(p: &mut Point) {
 struct Range {
     min: f64,
     max: f64,
-    inv_range: f64,
 }
 
 impl Range {
@@ -559,16 +558,11 @@ impl Range {
     }
 
     fn from_min_max(min: f64, max: f64) -> Result<Self> {
-        let range = max - min;
-        if range < 0.0 {
+        // Also rejects NaN limits, which would make clamping panic later
+        if min.is_nan() || max.is_nan() || max < min {
             Error::invalid(format!("Found invalid range: min={min}, max={max}"))?;
         }
-        let inv_range = 1.0 / range;
-        Ok(Self {
-            min,
-            max,
-            inv_range,
-        })
+        Ok(Self { min, max })
     }
 
     fn intensity_from_pointcloud(pc: &PointCloud) -> Result<Option<Self>> {
@@ -665,8 +659,19 @@ impl Range {
     #[inline]
     fn normalize(&self, value: f64) -> f32 {
         let clamped = value.clamp(self.min, self.max);
-        let normalized = (clamped - self.min) * self.inv_range;
-        normalized as f32
+        let range = self.max - self.min;
+        let normalized = if range.is_finite() {
+            (clamped - self.min) / range
+        } else {
+            // The range does not fit into a f64 (e.g. f64::MIN..f64::MAX), halve everything
+            (clamped * 0.5 - self.min * 0.5) / (self.max * 0.5 - self.min * 0.5)
+        };
+        if normalized.is_nan() {
+            // Degenerate range with min == max (or infinite limits)
+            0.0
+        } else {
+            normalized as f32
+        }
     }
 }
 
